@@ -423,3 +423,33 @@ func loopEmptyAt(a *Analysis, ctx *Ctx, hdr *ssa.BasicBlock, st *CNF) bool {
 	}
 	return true
 }
+
+// loopOnlyExhaustion: the loop that holds site s (in its own frame or in a
+// caller's) is left only through its header or into a block that only panics.
+// ok is true with inLoop false when the site is in no loop at all.
+func loopOnlyExhaustion(a *Analysis, s *Site) (ok, inLoop bool, why string) {
+	for k := s.Ctx; k != nil; k = k.parent {
+		blk := frameBlock(s, k)
+		if blk == nil {
+			break
+		}
+		hdr := innermostLoop(blk)
+		if hdr == nil {
+			continue
+		}
+		for _, e := range loopExits(hdr) {
+			if e.from == hdr {
+				continue
+			}
+			if _, isPanic := e.to.Instrs[len(e.to.Instrs)-1].(*ssa.Panic); isPanic {
+				continue
+			}
+			if a.edgeState(k, e.from, e.to) == nil {
+				continue
+			}
+			return false, true, "the loop can be left before every item was visited (at " + blockPos(a.w, e.from) + ")"
+		}
+		return true, true, ""
+	}
+	return true, false, ""
+}
